@@ -129,6 +129,45 @@ func TestC04(t *testing.T) {
 			if c.Kind == wire.Delete {
 				before = model.Live(c.Key, now)
 			}
+			// now and then the backend loses entries of the command's key while the
+			// command is running (eviction, or another writer without the lock): at the
+			// arrival of the command's 2nd..4th backend request.  As with damage between
+			// commands, what this command and later ones on the key answer is not judged;
+			// everything else must go on as if nothing had happened -- in particular the
+			// handler's connection must still be in step.
+			midLoss := false
+			if c.Key != "" && !damaged[c.Key] && rapid.IntRange(0, 11).Draw(t, "midLoss") == 0 {
+				if it := model.Live(c.Key, now); it != nil {
+					nchunks := (len(it.Value) + chunkPayload(len(c.Key)) - 1) / chunkPayload(len(c.Key))
+					nb := nchunks + 1
+					if nb > 6 {
+						nb = 6
+					}
+					mask := rapid.IntRange(1, 1<<uint(nb)-1).Draw(t, "midLossMask")
+					at := rapid.IntRange(1, 3).Draw(t, "midLossAt")
+					var names []string
+					for b := 0; b < nb; b++ {
+						if mask&(1<<uint(b)) != 0 {
+							if b == 0 {
+								names = append(names, c.Key+"-meta")
+							} else {
+								names = append(names, c.Key+"-"+strconv.Itoa(b-1))
+							}
+						}
+					}
+					seen := 0
+					f.Before = func(r *fakemc.Req) {
+						if seen++; seen == at+1 {
+							f.Evict(names...)
+						}
+					}
+					midLoss = true
+					damaged[c.Key] = true
+					damagedEver = true
+					cmds[len(cmds)-1] = wire.Cmd{Kind: wire.RawBytes, Raw: []byte(fmt.Sprintf("[during the next command, at its backend request #%d, the backend loses %v]", at+1, names))}
+					cmds = append(cmds, c)
+				}
+			}
 			onDamaged := damaged[c.Key]
 			logFrom := f.LogLen()
 			var exp refmodel.Expect
@@ -144,7 +183,10 @@ func TestC04(t *testing.T) {
 					noteHang()
 					fail(i, c, "command on a key with lost backend entries did not return within the bound")
 				}
-				if c.Kind == wire.Set && got.Class == refmodel.OK {
+				if midLoss {
+					f.Before = nil
+					delete(model.M, c.Key) // even a set that reports success may have lost part of what it wrote
+				} else if c.Kind == wire.Set && got.Class == refmodel.OK {
 					model.Apply(c, now)
 					delete(damaged, c.Key)
 				} else if c.Kind != wire.Get && c.Kind != wire.Gat && c.Kind != wire.Touch {
@@ -163,6 +205,11 @@ func TestC04(t *testing.T) {
 				case <-time.After(hangBound()):
 					noteHang()
 					fail(i, c, "command did not return within the bound")
+				}
+				if got.EchoBad != "" {
+					// holds for intact, absent and damaged keys alike: the responder decides from
+					// this flag whether a miss is put on the wire
+					fail(i, c, got.EchoBad)
 				}
 				if c.Kind == wire.Get {
 					// positions of damaged keys are not judged
